@@ -218,12 +218,12 @@ def explore_clock_orders(scenario, seed, name, bound, history):
         from scenic.core.sample_checking import WeightedAcceptanceChecker
 
         scenario.setSampleChecker(WeightedAcceptanceChecker(bufferSize=100))
-        clock = seams.ScriptedClock(alphabet=(1.0, 8.0, 64.0))
+        clock = seams.ScriptedClock(alphabet=(1.0, 16.0))
         with seams.clock_seam(clock):
             d = one_run(scenario, seed, history, name)
         return d, tuple(clock.durations)
 
-    for ex, (d, durs), st in explorer.explore(once, bound=bound, max_executions=3000):
+    for ex, (d, durs), st in explorer.explore(once, bound=bound, max_executions=(120 if name == "geometry" and bound <= 2 else 1500)):
         n_exec += 1
         orders.add(durs)
         results.setdefault(digest(d), (d, list(ex.choices)))
@@ -310,9 +310,10 @@ def run(ctx):
             ctx.capped = True
         for sig, desc, case in r["violations"]:
             ctx.violation(sig, desc + "\n" + PROGRAMS[r["name"]], case)
+    ctx.notes.append(f"in-process exploration finished after {ctx.elapsed():.0f}s")
     # real processes (finite list, run completely): PYTHONHASHSEED x program
     hs = (0, 1, 2, 3) if ctx.tier == "quick" else tuple(range(8))
-    jobs = [(n, 1, h) for n in (["witness", "four-req-only"] if ctx.tier == "quick" else ["witness"] + names) for h in hs]
+    jobs = [(n, 1, h) for n in (["witness"] if ctx.tier == "quick" else ["witness"] + names) for h in hs]
     groups = {}
     for name, seed, h, d in ctx.pmap(fresh_process, jobs, chunksize=1):
         tot["runs"] += 1
@@ -327,6 +328,7 @@ def run(ctx):
                 f"program {name}, seed {seed}: fresh processes with PYTHONHASHSEED {[h for h, _ in g[ks[0]]]} and {[h for h, _ in g[ks[1]]]} give different scenes: {first_diff(g[ks[0]][0][1], g[ks[1]][0][1])}",
                 {"name": name, "seed": seed, "kind": "process", "hashseeds": [g[ks[0]][0][0], g[ks[1]][0][0]]},
             )
+    ctx.notes.append(f"fresh processes finished after {ctx.elapsed():.0f}s")
     if tot["clock_orders"] < 10:
         raise HarnessError(f"vacuous: {tot}")
     ctx.cov.update(
@@ -340,6 +342,8 @@ def run(ctx):
         collisions={"executions_with_a_set_order_choice": tot["set_multi"], "set_order_executions": tot["set_execs"], "distinct_check_duration_vectors": tot["clock_orders"], "fresh_processes": len(jobs)},
         bounds={"programs": names, "seeds": list(SEEDS if ctx.tier == "thorough" else SEEDS[:1]), "hashseeds": list(hs)},
     )
+    if ctx.capped:
+        ctx.cov["cap"] = "check-order exploration of the mesh-sampling program 'geometry' is capped at 120 executions per history in the quick tier (1500 otherwise); every other exploration completed"
     ctx.assumptions.append("address-space layout affects the code only through the iteration order of identity-hashed sets (enumerated) — layouts themselves cannot be enumerated")
 
 
@@ -362,7 +366,7 @@ def replay(ctx, case):
             d = one_run(sc, seed, 0, name)
             sig = "set-order-dependence"
         else:
-            clock = seams.ScriptedClock(alphabet=(1.0, 8.0, 64.0))
+            clock = seams.ScriptedClock(alphabet=(1.0, 16.0))
             with seams.clock_seam(clock):
                 d = one_run(scenic.scenarioFromString(text), seed, case["history"], name)
             sig = "check-order-dependence"
